@@ -71,8 +71,17 @@ class C07(CfProp):
             cases.append({"g": {"nodes": [0, 1, 2], "dir": [[0, 2]], "bid": [[1, 2]]},
                           "event": [[{"k": "V", "n": "A", "s": None}, ["A", False]], [{"k": "C", "n": "C", "s": None, "i": [["A", True]]}, ["C", True]]]})
         while len(cases) < n:
+            r0 = rng.random()
+            if r0 < 0.08:
+                g, ev = GEV.three_world_case(rng)
+                cases.append({"g": g, "event": ev})
+                continue
             g = self.rand_case(rng, 4)
-            ev = GEV.structured_event(rng, g) if rng.random() < 0.2 else None
+            ev = None
+            if r0 < 0.28:
+                ev = GEV.structured_event(rng, g)
+            elif r0 < 0.43:
+                ev = GEV.two_parent_event(rng, g)
             cases.append({"g": g, "event": ev or GEV.rand_event(rng, g["nodes"])})
         return cases
 
